@@ -453,6 +453,52 @@ inline void enumerate_chain(const std::string& codes, bool thorough, const std::
     rec(n - 1, Shapes{});
 }
 
+// ---- which chains does the COMPILER accept?  nmtools rejects some combinations with fail types / static_asserts (inside the views or inside
+// the operand-pack plumbing); such chains are not instantiated (and are counted).  The decision walks the chain over the REAL element types of
+// the direct evaluation (so it follows the library when a view starts / stops returning maybe), with these structural rules, fitted to an
+// exhaustive compile sweep of all 12^2 + 12^3 chains (each chain compiled on its own):
+//   m = an operand is maybe-valued, f = an operand has a fixed dimension of 1 (flatten, and what negative / transpose make of it),
+//   z = an operand is a number / 0-dim (sum over a fixed 1-dim array)
+//   - matmul with an f or z operand, sum / transpose of a z operand: rejected by the views themselves
+//   - matmul with a maybe operand: compiles, but the VIEW view::matmul(maybe<view>, array) is itself memory-unsafe (it is built from
+//     unwrap(array), a temporary copy, and keeps a pointer to it), so there is no direct evaluation to compare with: excluded, reported
+//   - dig2 / bury2 with a maybe or z among their three operands: rejected (tuple_slice of maybe<tuple>)
+//   - swap with a maybe operand returns maybe<tuple>: fine as the leftmost functor; otherwise the next functor receives ONE operand of type
+//     maybe<tuple>: negative / sum / transpose / flatten / broadcast_to reject it (matmul: see above); subtract, reshape, swap, dup, dig2, bury2 compile
+//     (and are therefore instantiated and run) when they are the leftmost functor
+template <class E> constexpr int fixed_dim_of() {
+    using P = std::remove_cv_t<std::remove_pointer_t<meta::remove_cvref_t<E>>>;
+    if constexpr (meta::is_maybe_v<P>) return fixed_dim_of<meta::get_maybe_type_t<P>>();
+    else if constexpr (meta::is_num_v<P>) return 0;
+    else { using S = meta::remove_cvref_t<decltype(nm::shape(std::declval<const P&>()))>; constexpr auto n = meta::len_v<S>; return n > 0 ? (int)n : -1; }
+}
+template <class E> constexpr bool is_maybe_elem() { return meta::is_maybe_v<std::remove_cv_t<meta::remove_cvref_t<E>>>; }
+template <class Ltr, class St> constexpr auto elem_flags() {
+    struct R { bool m = false, f = false, z = false; } r;
+    meta::template_for<(size_t)Ltr::arity>([&](auto i) { using E = std::tuple_element_t<decltype(i)::value, St>; r.m = r.m || is_maybe_elem<E>(); r.f = r.f || fixed_dim_of<E>() == 1; r.z = r.z || fixed_dim_of<E>() == 0; });
+    return r;
+}
+template <int I, class LsTuple, class St> constexpr bool chain_accepted() {
+    if constexpr (I < 0) return true;
+    else {
+        using Ltr = std::tuple_element_t<(size_t)I, LsTuple>;
+        constexpr char c = Ltr::code;
+        constexpr auto fl = elem_flags<Ltr, St>();
+        if constexpr ((c == 'M' && (fl.f || fl.z || fl.m)) || ((c == 'R' || c == 'T') && fl.z) || ((c == 'g' || c == 'y') && (fl.m || fl.z))) return false;
+        else if constexpr (c == 'w' && fl.m && I > 0) {
+            if constexpr (I != 1) return false;
+            else { using Nx = std::tuple_element_t<0, LsTuple>; constexpr char n = Nx::code; return (n == 'B' || n == 'S' || n == 'w' || n == 'd' || n == 'g' || n == 'y'); }
+        }
+        else { using Next = decltype(Ltr::step(std::declval<const L&>(), std::declval<const St&>())); return chain_accepted<I - 1, LsTuple, Next>(); }
+    }
+}
+template <class T, size_t... I> std::tuple<std::enable_if_t<(I >= 0), const T*>...> ptr_tuple_of(std::index_sequence<I...>);
+template <class... Ls> constexpr bool chain_compiles() {
+    using CT = chain_traits<Ls...>;
+    using St0 = decltype(ptr_tuple_of<arr_t>(std::make_index_sequence<(size_t)CT::need.operands>{}));
+    return chain_accepted<CT::N - 1, std::tuple<Ls...>, St0>();
+}
+
 // all chains of length N over an alphabet std::tuple<Ls...>; a unit owns the chains whose RIGHTMOST letter has index SLICE (or all: SLICE < 0)
 template <class Alphabet, int N, int SLICE> struct chains {
     static constexpr long A = (long)std::tuple_size_v<Alphabet>;
@@ -461,7 +507,13 @@ template <class Alphabet, int N, int SLICE> struct chains {
     // chain number J (0 <= J < COUNT) -> digit of position I (0 = leftmost letter)
     static constexpr long full_index(long j) { return SLICE < 0 ? j : j * A + SLICE; }
     static constexpr long digit(long j, int i) { long x = full_index(j); for (int k = N - 1; k > i; k--) x /= A; return x % A; }
-    template <long J, size_t... I> static Outcome run_j(const Case& c, std::index_sequence<I...>) { return run_chain<std::tuple_element_t<(size_t)digit(J, (int)I), Alphabet>...>(c); }
+    template <long J, size_t... I> static constexpr bool compiles_j(std::index_sequence<I...>) { return chain_compiles<std::tuple_element_t<(size_t)digit(J, (int)I), Alphabet>...>(); }
+    template <long J, size_t... I> static Outcome run_j(const Case& c, std::index_sequence<I...>) {
+        if constexpr (compiles_j<J>(std::index_sequence<I...>{})) return run_chain<std::tuple_element_t<(size_t)digit(J, (int)I), Alphabet>...>(c);
+        else nmc::die("composition case: this chain is rejected by the compiler and not instantiated");
+    }
+    template <size_t... J> static bool accepted_(long j, std::index_sequence<J...>) { static const bool tab[] = {compiles_j<(long)J>(std::make_index_sequence<(size_t)N>{})...}; return tab[j]; }
+    static bool accepted(long j) { return accepted_(j, std::make_index_sequence<(size_t)COUNT>{}); }
     template <size_t... I> static std::string codes_of(std::index_sequence<I...>) { return std::string{std::tuple_element_t<I, Alphabet>::code...}; }
     static std::string alphabet_codes() { return codes_of(std::make_index_sequence<(size_t)A>{}); }
     static std::string code_of(long j) { std::string al = alphabet_codes(), s; for (int i = 0; i < N; i++) s += al[(size_t)digit(j, i)]; return s; }
@@ -475,6 +527,8 @@ template <class Alphabet, int N, int SLICE> struct chains {
     static void enumerate(bool thorough, const nmc::Sink& emit) {
         for (long j = 0; j < COUNT; j++) {
             std::string code = code_of(j);
+            if (!accepted(j)) { nmc::count("chains_rejected_by_compiler"); continue; }
+            nmc::count("chains");
             enumerate_chain(code, thorough, [&](const std::vector<L>& operands, const std::vector<L>& attrs) {
                 for (int p = 0; p < n_parens(N); p++) { Case c("cmp:" + code); c.arg((long)p); for (auto& s : operands) c.arg(s); for (auto& a : attrs) c.arg(a); emit(c); }
             });
